@@ -280,4 +280,32 @@ def r13_5(run):
     run.floor(2)
 
 
-RULES = [("R13.1", r13_1), ("R13.2", r13_2), ("R13.3", r13_3), ("R13.4", r13_4), ("R13.5", r13_5)]
+def r13_6(run):
+    """run_control is what every time step calls with the time series' own variables (run function, error classes, recycle
+    settings): variables handed in by the caller are passed on as they are -- the defaults of prepare_run_ctrl are only built when
+    none were given, so the error classes registered by init_time_series (which include the controller loop's
+    NetCalculationNotConverged) survive the first step"""
+    from ..arrnf import roots, key as tkey
+    ix = run.index
+    f = ix.func(RC + ".run_control")
+    run.analysed(f)
+    ps = f.params()
+    _shape(len(ps) >= 2, "run_control(net, ctrl_variables, ...)")
+    r = ANF(ix, f, inline={RC + ".prepare_run_ctrl"}, param_alias={ps[0]: "net", ps[1]: "ctrl_variables"}).run()
+    given = tkey(("n", "ctrl_variables"))
+    def keeps(e):
+        # d[k] = d.get(k, default) / d.setdefault(k, default): an entry the caller gave is kept
+        v = e.value
+        return v[0] == "call" and v[1][0] == "attr" and v[1][2] == "get" and tkey(v[1][1]) == tkey(e.base) and v[2][:1] == e.index
+    bad = [e for e in r.stores() if given in roots(e.base) and not keeps(e)]
+    run.ob("control.run_control|given-variables-unchanged", not bad,
+           "ctrl_variables handed in by the caller (the time series' run / errors / recycle entries) are not written by run_control",
+           run.where(f, bad[0].node if bad else f.node),
+           detail="; ".join("[%s] = %s" % (show(e.index[0])[:30], show(e.value)[:60]) for e in bad[:3]) if bad else None)
+    cs = [c for c in r.calls() if c.fn[0] == "x" and c.fn[1].endswith("run_control")]
+    ok = len(cs) >= 1 and all(any(contains(a_, ("n", "ctrl_variables")) for a_ in list(c.args) + [v for _, v in c.kw]) for c in cs)
+    run.ob("control.run_control|variables-passed-on", ok, "the variables reach pandapower's run_control", run.where(f, f.node))
+    run.floor(2)
+
+
+RULES = [("R13.1", r13_1), ("R13.2", r13_2), ("R13.3", r13_3), ("R13.4", r13_4), ("R13.5", r13_5), ("R13.6", r13_6)]
